@@ -299,10 +299,14 @@ def c13_year_crossing(v, spec):
         # the same wrong count (tens of thousands of steps) makes the record
         # reader walk the file that many times: the step budget runs out
         return True
+    # (for EMISSIONS files the one-layer defect,
+    # C13-uamiv-read-emissions-one-layer, shows up in the same comparison)
+    emis = spec.get('fmt') == 'uamiv' and spec.get('name') == 'EMISSIONS' \
+        and spec.get('nz', 1) > 1
     return (v['kind'].startswith('readers-disagree:') and _crosses_year(spec)
             and bool(pr) and any('dimension TSTEP' in p for p in pr) and
-            all(('TSTEP' in p) or ('shape' in p) or ('TFLAG' in p)
-                for p in pr))
+            all(('TSTEP' in p) or ('shape' in p) or ('TFLAG' in p) or
+                (emis and 'dimension LAY' in p) for p in pr))
 
 
 @pred('C20-file-no-headroom-saturation')
